@@ -149,27 +149,32 @@ ReadHdr == /\ pc = "hdr"
            /\ pc' = IF hdr = "IFD0" THEN "loop" ELSE "adv"
            /\ UNCHANGED <<inputVars, lay, at, free, phase, cur, hdr>>
 
+\* The loop-head steps are written for an explicit list index c, without their control guard, so that the trace
+\* acceptor can compose them with the silent Advance (the code emits one event per loop iteration).
 \* loop head on a pointer tag: seekToTag, resetPosition, read the child directory
-LoopIfd == /\ pc = "loop" /\ cur <= Len(pend) /\ pend[cur].kind = "ifd"
-           /\ po' = IF pend[cur].off >= po THEN pend[cur].off ELSE po
-           /\ pend' = SubSeq(pend, cur, Len(pend)) /\ cur' = 1
-           /\ hdr' = Child(pend[cur].cls) /\ pc' = "hdr"
-           /\ UNCHANGED <<inputVars, lay, at, free, phase, out, dropped, reads>>
+LoopIfdAt(c) == /\ c <= Len(pend) /\ pend[c].kind = "ifd"
+                /\ po' = IF pend[c].off >= po THEN pend[c].off ELSE po
+                /\ pend' = SubSeq(pend, c, Len(pend)) /\ cur' = 1
+                /\ hdr' = Child(pend[c].cls) /\ pc' = "hdr"
+                /\ UNCHANGED <<inputVars, lay, at, free, phase, out, dropped, reads>>
 \* loop head on a value tag: discard up to the value, read it, assign the field
-LoopVal == /\ pc = "loop" /\ cur <= Len(pend) /\ pend[cur].kind = "val"
-           /\ IF Known(pend[cur].cls) /\ pend[cur].off >= po /\ pend[cur].off + pend[cur].size <= Limit
-                THEN po' = pend[cur].off + pend[cur].size /\ out' = Append(out, pend[cur].key) /\ reads' = reads + 1
-                ELSE UNCHANGED <<po, out, reads>>            \* foreign tag: nothing is read
-           /\ pc' = "adv"
-           /\ UNCHANGED <<inputVars, lay, at, free, phase, pend, cur, dropped, hdr>>
+LoopValAt(c) == /\ c <= Len(pend) /\ pend[c].kind = "val"
+                /\ IF Known(pend[c].cls) /\ pend[c].off >= po /\ pend[c].off + pend[c].size <= Limit
+                     THEN po' = pend[c].off + pend[c].size /\ out' = Append(out, pend[c].key) /\ reads' = reads + 1
+                     ELSE UNCHANGED <<po, out, reads>>            \* foreign tag: nothing is read
+                /\ pc' = "adv" /\ cur' = c
+                /\ UNCHANGED <<inputVars, lay, at, free, phase, pend, dropped, hdr>>
+LoopIfd == pc = "loop" /\ LoopIfdAt(cur)
+LoopVal == pc = "loop" /\ LoopValAt(cur)
 \* advanceBuffer: never steps beyond the end of the list
 Advance == /\ pc = "adv" /\ cur' = cur + 1 /\ pc' = "loop"
            /\ UNCHANGED <<inputVars, lay, at, free, phase, po, pend, out, dropped, hdr, reads>>
 \* DecodeJPEGIfd finally discards up to ExifLength, so the caller stands at the end of the payload
-Finish == /\ pc = "loop" /\ cur > Len(pend)
-          /\ po' = IF variant = "jpeg" THEN Limit ELSE po
-          /\ pc' = "done"
-          /\ UNCHANGED <<inputVars, lay, at, free, phase, pend, cur, out, dropped, hdr, reads>>
+FinishAt(c) == /\ c > Len(pend)
+               /\ po' = IF variant = "jpeg" THEN Limit ELSE po
+               /\ pc' = "done"
+               /\ UNCHANGED <<inputVars, lay, at, free, phase, pend, cur, out, dropped, hdr, reads>>
+Finish == pc = "loop" /\ FinishAt(cur)
 
 Stutter == pc = "done" /\ UNCHANGED vars
 Next == PlaceIfd0 \/ Place \/ Laid \/ Begin \/ ReadHdr \/ LoopIfd \/ LoopVal \/ Advance \/ Finish \/ Stutter
